@@ -174,9 +174,10 @@ class QueryHandler:
             next_token = self._get_next_token()
             if next_token and next_token.kind == Token.Wildcard:
                 expr = ExpressionWildcardNew(next_token)
-            elif next_token:
+            elif next_token and next_token.kind == Token.Tag and next_token.text not in ("[[", "]]"):
                 expr = Expression(next_token)
             else:
-                expr = None
+                # An operator or a closing/legacy grouping symbol cannot stand where a term is expected.
+                raise ValueError(f"Parse error: unexpected '{next_token}' where a search term was expected")
 
         return expr
